@@ -6,6 +6,7 @@ pub mod clock;
 pub mod exec;
 pub mod fabric;
 pub mod grouprx;
+pub mod grouptx;
 pub mod imdev;
 pub mod kv;
 pub mod mutate;
